@@ -1,5 +1,5 @@
 CONSTANTS MAXLEN = 6
- MAXK = 12
+ MAXK = 5
 SPECIFICATION Spec
 INVARIANT Distinct
 INVARIANT Consecutive
